@@ -1,5 +1,7 @@
 import JediModel.Proto
-import JediModel.Props.C17
+import JediModel.Lemmas.Tree
+import JediModel.Model.Names
+import JediModel.Model.ParsoPos
 open Lean Proto JediModel.Text JediModel.Tree JediModel.Names JediModel.ParsoPos
 
 def posJson (p : Pos) : Json := jarr [jnat p.line, jnat p.col]
